@@ -128,3 +128,45 @@ def calls_in(leaf, upto=None):
         if e[0] == 'call':
             out.append((e[1], e[3], e[4]))
     return out
+
+
+# -------------------------------------------------------------------- constant evaluation
+def const_value(cx, t, env=None, depth=0):
+    """numeric/bool/str value of a term built from constants, repo module constants, ite over env booleans;
+    raises ValueError if not constant"""
+    import math
+    env = env or {}
+    if t is None:
+        raise ValueError('none')
+    k = t[0]
+    if k == 'c':
+        return t[1]
+    if k == 'p' and t[1] in env:
+        return env[t[1]]
+    if k == 'g' and depth < 5:
+        lk = cx.model.lookup(t)
+        if lk and lk[0] == 'const':
+            tt = cx.sx.term(lk[1], {}, t[1])
+            return const_value(cx, tt, env, depth + 1)
+        raise ValueError('not a constant: %s' % (t,))
+    if k == 'un' and t[1] == '-':
+        return -const_value(cx, t[2], env, depth)
+    if k == 'not':
+        return not const_value(cx, t[1], env, depth)
+    if k == 'ite':
+        return const_value(cx, t[2] if const_value(cx, t[1], env, depth) else t[3], env, depth)
+    if k == 'bin':
+        a, b = const_value(cx, t[2], env, depth), const_value(cx, t[3], env, depth)
+        op = t[1]
+        return {'+': lambda: a + b, '-': lambda: a - b, '*': lambda: a * b, '/': lambda: a / b, '//': lambda: a // b, '%': lambda: a % b,
+                '**': lambda: a ** b, '|': lambda: a | b, '&': lambda: a & b, '^': lambda: a ^ b}[op]()
+    if k == 'call':
+        name = term_name(t[1])
+        args = [const_value(cx, a, env, depth) for a in t[2]]
+        if name in ('numpy.log10', 'math.log10') and len(args) == 1:
+            return math.log10(args[0])
+        if name in ('numpy.sqrt', 'math.sqrt') and len(args) == 1:
+            return math.sqrt(args[0])
+        if name in ('float', 'int', 'abs') and len(args) == 1:
+            return {'float': float, 'int': int, 'abs': abs}[name](args[0])
+    raise ValueError('not a constant: %s' % (t[:2],))
